@@ -245,7 +245,8 @@ def run_stdio(ctl: explorer.Ctl, cfg: Dict[str, Any]) -> Dict[str, Any]:
                 delivered[str(i)] = lp.time()
             proc.stdout.feed(b"".join(lines))
             return
-        grouping = ["one-chunk", "chunk-per-line", "split-mid-line", "after-150-notifications"][ctl.choose(4, "grouping")]
+        grouping = ["one-chunk", "chunk-per-line", "split-mid-line", "after-150-notifications",
+                    "after-a-long-line-in-two-reads"][ctl.choose(5, "grouping")]
         lines = [(json.dumps({"jsonrpc": "2.0", "id": seen[i], "result": {"for": i}}) + "\n").encode() for i in order]
         for i in order:
             delivered[str(i)] = lp.time()
@@ -254,6 +255,13 @@ def run_stdio(ctl: explorer.Ctl, cfg: Dict[str, Any]) -> Dict[str, Any]:
             notes = b"".join((json.dumps({"jsonrpc": "2.0", "method": "notifications/message", "params": {"n": n}}) + "\n").encode()
                              for n in range(150))
             proc.stdout.feed(notes + b"".join(lines))
+        elif grouping == "after-a-long-line-in-two-reads":
+            # a long line arriving in two reads (the first without a line end), then each answer as a short read of its own
+            long_line = (json.dumps({"jsonrpc": "2.0", "method": "notifications/message", "params": {"data": "x" * 4000}}) + "\n").encode()
+            proc.stdout.feed(long_line[:3000])
+            proc.stdout.feed(long_line[3000:])
+            for ln in lines:
+                proc.stdout.feed(ln)
         elif grouping == "one-chunk":
             proc.stdout.feed(b"".join(lines))
         elif grouping == "chunk-per-line":
@@ -485,6 +493,8 @@ def run_per_request_multi(ctl: explorer.Ctl, cfg: Dict[str, Any]) -> Dict[str, A
         if r >= rounds or any(len(seen[c]) < (r + 1) * len(ids) for c in range(nc)):
             return
         st["round_answered"] = r + 1
+        if r in (cfg.get("unanswered_rounds") or []):
+            return  # the server never answers this round: the callers give up and ask again under the same ids
         order = perms[ctl.choose(len(perms), f"answer-order-round{r}")]
         for pi in order:
             c, i = pairs[pi]
@@ -495,11 +505,13 @@ def run_per_request_multi(ctl: explorer.Ctl, cfg: Dict[str, Any]) -> Dict[str, A
             rs = client.new_request_stream(str(ids[i]))
             await client.send_json(JSONRPCRequest(id=ids[i], method="tools/call", params={"who": i, "conn": c, "round": r}))
             try:
-                with _anyio.fail_after(1.0):
+                with _anyio.fail_after(0.3 if r in (cfg.get("unanswered_rounds") or []) else 1.0):
                     m = await rs.receive()
                 results[(c, i)].append(("result", m.model_dump(exclude_none=True)))
             except TimeoutError:
                 results[(c, i)].append(("timeout", None))
+                if cfg.get("abandoned") == "closed":
+                    rs.close()
             except BaseException as e:  # noqa: BLE001
                 results[(c, i)].append(("exc", type(e).__name__))
 
@@ -535,6 +547,10 @@ def run_per_request_multi(ctl: explorer.Ctl, cfg: Dict[str, Any]) -> Dict[str, A
         for r in range(rounds):
             kind, v = results[(c, i)][r] if r < len(results[(c, i)]) else ("missing", None)
             summary.append(kind[0])
+            if r in (cfg.get("unanswered_rounds") or []):
+                if kind != "timeout":
+                    viol.append({"sig": {"class": "answer-nobody-sent", "part": "per-request"}, "msg": f"cfg={cfg}: caller {i} round {r}: {kind} {v}"})
+                continue
             if kind == "result":
                 want = {"for": i, "conn": c, "round": r}
                 if v.get("result") != want or type(v.get("id")) is not type(ids[i]) or v.get("id") != ids[i]:
@@ -548,7 +564,8 @@ def run_per_request_multi(ctl: explorer.Ctl, cfg: Dict[str, Any]) -> Dict[str, A
                                     f"ended with {kind}; main streams saw {[[m.get('result') for m in ms] for ms in main_streams]}"})
     for c in range(nc):
         got = [m.get("result") for m in main_streams[c] if "method" not in m]
-        want = [{"for": i, "conn": c, "round": r} for r in range(rounds) for i in range(len(ids))]
+        want = [{"for": i, "conn": c, "round": r} for r in range(rounds) for i in range(len(ids))
+                if r not in (cfg.get("unanswered_rounds") or [])]
         key = lambda d: json.dumps(d, sort_keys=True)
         if sorted(map(key, got)) != sorted(map(key, want)):
             viol.append({"sig": {"class": "main-stream-mismatch", "part": "per-request", "connections": nc},
@@ -572,6 +589,11 @@ def multi_configs(tier: str):
         for rounds in ((2, 3) if len(idset) == 2 else (2,)):
             for reg in range(_m.factorial(len(idset))):
                 out.append({"conns": 1, "ids": idset, "rounds": rounds, "reg": reg})
+    # a request that was never answered is abandoned (stream dropped or closed), the same id is asked again and answered
+    for idset in idsets[:2]:
+        for ab in ("dropped", "closed"):
+            for un in ([0], [0, 1]):
+                out.append({"conns": 1, "ids": idset, "rounds": len(un) + 1, "reg": 0, "unanswered_rounds": un, "abandoned": ab})
     # two connections and two rounds (start order fixed per parity; answer orders all)
     for idset in idsets[:1] if tier == "quick" else [i for i in idsets if len(i) == 2]:
         for reg in (0, 23) if tier == "quick" else range(0, 24, 3):
@@ -641,7 +663,7 @@ def run(tier: str, only=None) -> core.Result:
         "action from the anchor-relative time menu (now, +1us, just before / on (both tie orders) / just after the next "
         "library timer), equal and unequal per-caller timeouts, simultaneous and staggered starts; auto-generated ids through the same and through cloned "
         "write streams; the same through the real stdio transport (scripted child): every answer order x {all answers in one chunk, "
-        "one chunk per line, chunk boundary mid-line, all answers behind a burst of 150 notifications}; per-request streams: id shapes, "
+        "one chunk per line, chunk boundary mid-line, all answers behind a burst of 150 notifications, each answer alone after a long line that came in two reads}; per-request streams: id shapes, "
         "two connections alive at once whose callers use the same ids (every caller start order x every answer order), and callers "
         "reusing their id for 2-3 back-to-back rounds (every answer order per round)"
     )
